@@ -26,7 +26,10 @@ fn main() {
     let scen = PathBuf::from(std::env::var_os("CVH_SCEN").unwrap_or_else(|| "/nonexistent".into()));
     if args.get(1).map(|a| a == "--grandchild").unwrap_or(false) {
         let mode = args.get(2).and_then(|a| a.to_str().map(String::from)).unwrap_or_default();
-        if mode == "detach-stdio" {
+        if mode.ends_with("+ignore-term") {
+            unsafe { let _ = nix::sys::signal::signal(nix::sys::signal::Signal::SIGTERM, nix::sys::signal::SigHandler::SigIgn); }
+        }
+        if mode.starts_with("detach-stdio") {
             // give up the inherited pipes so that the parent's stdout/stderr reach EOF without us
             unsafe { libc_close(0); libc_close(1); libc_close(2); }
         }
@@ -38,7 +41,24 @@ fn main() {
     let pgid = nix::unistd::getpgrp();
     let seed: u64 = args.last().and_then(|a| a.to_str()).and_then(|s| s.parse().ok()).unwrap_or(u64::MAX);
     let argv: Vec<String> = args.iter().skip(1).map(|a| hex(a.as_bytes())).collect();
-    log(&scen, &format!("{{\"ev\":\"start\",\"seed\":{},\"pid\":{},\"pgid\":{},\"argv\":{:?}}}", seed, pid, pgid, argv));
+    // which other marked processes are alive right now (not zombies), by process group: the evaluations in progress
+    // at the instant this one starts, as the process table shows them
+    let mut others: Vec<i32> = Vec::new();
+    if let (Ok(mark), Ok(rd)) = (std::env::var("CVH_MARK"), std::fs::read_dir("/proc")) {
+        let needle = format!("CVH_MARK={}", mark);
+        for e in rd.flatten() {
+            let p: i32 = match e.file_name().to_str().and_then(|s| s.parse().ok()) { Some(p) => p, None => continue };
+            if p == pid as i32 { continue; }
+            let env = match std::fs::read(e.path().join("environ")) { Ok(b) => b, Err(_) => continue };
+            if !env.split(|c| *c == 0).any(|kv| kv == needle.as_bytes()) { continue; }
+            let stat = std::fs::read_to_string(e.path().join("stat")).unwrap_or_default();
+            let after = stat.rsplit(')').next().unwrap_or("").trim().to_string();
+            let f: Vec<&str> = after.split_whitespace().collect();
+            if matches!(f.first().copied(), Some("Z") | Some("X") | None) { continue; }
+            if let Some(g) = f.get(2).and_then(|x| x.parse::<i32>().ok()) { if g != pgid.as_raw() && !others.contains(&g) { others.push(g); } }
+        }
+    }
+    log(&scen, &format!("{{\"ev\":\"start\",\"seed\":{},\"pid\":{},\"pgid\":{},\"argv\":{:?},\"others\":{:?}}}", seed, pid, pgid, argv, others));
     let plan: serde_json::Value = std::fs::read_to_string(scen.join("plan.json")).ok().and_then(|s| serde_json::from_str(&s).ok()).unwrap_or(serde_json::json!({}));
     let beh = plan["seeds"].get(seed.to_string()).cloned().unwrap_or_else(|| plan["default"].clone());
     if beh["ignore_term"].as_bool().unwrap_or(false) {
@@ -49,7 +69,7 @@ fn main() {
         mode => {
             let exe = std::env::current_exe().unwrap();
             let mut c = std::process::Command::new(exe);
-            c.arg("--grandchild").arg(mode);
+            c.arg("--grandchild").arg(if beh["fork_ignore_term"].as_bool().unwrap_or(false) { format!("{mode}+ignore-term") } else { mode.to_string() });
             if beh["fork_setsid"].as_bool().unwrap_or(false) { unsafe { c.pre_exec(|| { let _ = nix::unistd::setsid(); Ok(()) }); } }
             let _ = c.spawn();
             // give the grandchild time to exist before we may exit
